@@ -177,6 +177,7 @@ func (w *Worker) run(entry *ssa.Function, item WorkItem, isInit bool) *PathResul
 	i.held = nil
 	i.jsonDecoders = nil
 	i.waitGroups = nil
+	i.pools = nil
 	i.maxConcOverride = 0
 	i.done = make(chan pathEnd, 64)
 	g0 := &goroutine{id: 0, wake: make(chan struct{}, 1), state: gRunnable, started: true, desc: "main"}
